@@ -34,6 +34,7 @@ static bool gCheckRange = false;
 static bool gTypedNew = true;
 static bool gFlatGep = false;
 static bool gThreads = false;   // emit __CPROVER_atomic_begin/end around atomics
+static std::set<std::string> gSplitStructs;  // LLVM struct names whose integer fields wider than 8 bits are emitted as byte arrays (unions overlaid with byte data: keeps each byte its own cell)
 
 [[noreturn]] static void die(const std::string &msg) {
   errs() << "ir2c: error: " << msg << "\n";
@@ -101,6 +102,8 @@ struct Emitter {
   }
 
   // ---------- types ----------
+  bool isSplitStruct(StructType *st) { return st && st->hasName() && gSplitStructs.count(st->getName().str()); }
+  bool isSplitField(StructType *st, unsigned fi) { if (!isSplitStruct(st)) return false; Type *e = st->getElementType(fi); return e->isIntegerTy() && e->getIntegerBitWidth() > 8; }
   std::string intTy(unsigned w, bool sgn = false) {
     unsigned s = w == 1 ? 1 : w <= 8 ? 8 : w <= 16 ? 16 : w <= 32 ? 32 : w <= 64 ? 64 : w <= 128 ? 128 : 0;
     if (!s) die("integer too wide: i" + std::to_string(w));
@@ -261,6 +264,7 @@ struct Emitter {
       return s;
     }
     if (auto *cs = dyn_cast<ConstantStruct>(c)) {
+      if (isSplitStruct(cast<StructType>(t))) die("non-zero constant of a --split-struct type");
       std::string s = inInit ? "{" : "((" + cty(t) + "){";
       for (unsigned i = 0, n = cs->getNumOperands(); i < n; i++) {
         if (i) s += ",";
@@ -443,7 +447,7 @@ struct Emitter {
     Type *srcTy = g->getSourceElementType();
     Type *ptrElem = g->getPointerOperandType()->getNonOpaquePointerElementType();
     if (srcTy != ptrElem) e = "((" + cty(srcTy) + "*)" + e + ")";
-    bool first = true;
+    bool first = true; bool sawSplit = false;
     std::string path;
     Type *cur = srcTy;
     for (auto it = g->idx_begin(); it != g->idx_end(); ++it) {
@@ -457,6 +461,7 @@ struct Emitter {
       } else if (auto *st = dyn_cast<StructType>(cur)) {
         unsigned fi = cast<ConstantInt>(idx)->getZExtValue();
         path += ".f" + std::to_string(fi);
+        if (isSplitField(st, fi)) { sawSplit = true; }
         cur = st->getElementType(fi);
       } else if (auto *at = dyn_cast<ArrayType>(cur)) {
         path += ".a[" + ie + "]";
@@ -464,6 +469,7 @@ struct Emitter {
       } else die("gep into non-aggregate");
     }
     if (first) return e;
+    if (sawSplit) return "((" + cty(g->getType()) + ")&(" + e + ")" + path + ")";
     return "(&(" + e + ")" + path + ")";
   }
 
@@ -753,6 +759,7 @@ struct Emitter {
     }
     case Instruction::ExtractValue: {
       auto &ev = cast<ExtractValueInst>(I);
+      if (auto *est = dyn_cast<StructType>(ev.getAggregateOperand()->getType())) if (isSplitStruct(est)) die("extractvalue on a --split-struct type");
       std::string e = V(0); Type *cur = ev.getAggregateOperand()->getType();
       for (unsigned idx : ev.indices()) {
         if (auto *st = dyn_cast<StructType>(cur)) { e += ".f" + std::to_string(idx); cur = st->getElementType(idx); }
@@ -895,7 +902,11 @@ struct Emitter {
         if (st->isOpaque()) continue;
         td += "struct " + std::string(st->isPacked() ? "__attribute__((packed)) " : "") + tyName[t] + " {";
         unsigned i = 0;
-        for (Type *e : st->elements()) td += " " + cty(e) + " f" + std::to_string(i++) + ";";
+        for (Type *e : st->elements()) {
+          if (isSplitField(st, i)) td += " u8 f" + std::to_string(i) + "[" + std::to_string(DL.getTypeAllocSize(e).getFixedSize()) + "];";
+          else td += " " + cty(e) + " f" + std::to_string(i) + ";";
+          i++;
+        }
         if (i == 0) td += " char ir2c_empty[0];";
         td += " };\n";
         const StructLayout *sl = DL.getStructLayout(st);
@@ -967,6 +978,7 @@ int main(int argc, char **argv) {
       fclose(f);
     }
     else if (a == "--threads") gThreads = true;
+    else if (a == "--split-struct" && i + 1 < argc) gSplitStructs.insert(argv[++i]);
     else if (a == "--report" && i + 1 < argc) report = argv[++i];
     else if (a[0] != '-') in = a;
     else die("bad arg " + a);
